@@ -35,7 +35,10 @@ RULE = ('random histories of length 2-40 over 2-4 library objects (incl. two '
         'interleaved decompositions before an estimate. Non-trivial = a '
         'history in which >=3 values were compared with the fresh-process '
         'table and every operation was bracketed by state hashes; distinct by '
-        'history.')
+        'history.'
+        ' Decomposition input forms: SMILES text, a fresh Mol, ONE Mol '
+        'object (without / with explicit H) shared by all such steps of a '
+        'history; fresh-process reference computed for the same form. ')
 ASSUMPTIONS = [
     'environment variables are constant within a history (the data-directory '
     'cache is process-wide by design)',
